@@ -42,11 +42,11 @@ RULE = (
     "the row has >= 1 control cell and the parameter rows that the control sentinel -1 would index (last treatment) "
     "are non-zero"
 )
-UNIVERSE = {"quick": (2, 3, (1, 2)), "thorough": (3, 4, (1, 2, 3))}
+UNIVERSE = {"quick": (2, 3, (1, 2)), "thorough": (3, 4, (1, 3))}
 BOUNDS = {
     "quick": {"samples": 2, "treatments": 3, "embedding_sizes": [1, 2], "rows_per_enumerated_screen": 2,
               "subset_sizes": "1, 2, n-1, even, odd, prefix, suffix", "holder_sizes": "1..4", "tolerance": 1e-12},
-    "thorough": {"samples": 3, "treatments": 4, "embedding_sizes": [1, 2, 3], "rows_per_enumerated_screen": 2,
+    "thorough": {"samples": 3, "treatments": 4, "embedding_sizes": [1, 3], "rows_per_enumerated_screen": 2,
                  "subset_sizes": "1, 2, n-1, even, odd, prefix, suffix", "holder_sizes": "1..4", "tolerance": 1e-12},
 }
 ASSUMPTIONS = [
